@@ -220,7 +220,11 @@ Fixpoint rcheck_stmt (G : denvS) (st : astmt ann) {struct st} : option denvS :=
   | ASIf ph c ift iff =>
       if rcheck_expr G c then
         match rcheck_block G ift, rcheck_block G iff with
-        | Some G1, Some G2 => if phis_bound ph G1 G2 then rmerge ph G1 G2 else None
+        | Some G1, Some G2 =>
+            (* an arm that always returns never reaches the join: no phi, the other arm decides *)
+            if blk_ret ift then (match ph with [] => Some G2 | _ => None end)
+            else if blk_ret iff then (match ph with [] => Some G1 | _ => None end)
+            else if phis_bound ph G1 G2 then rmerge ph G1 G2 else None
         | _, _ => None
         end
       else None
